@@ -306,6 +306,50 @@ def check(ctx):
                     continue
             unknown.append(c)
         for c in unknown:
+            xe = t.expand(c.expr) if isinstance(c.expr, ast.AST) else None
+            nodes = list(ast.walk(xe)) if xe is not None else []
+            if isinstance(c.expr, ast.AST):
+                nodes += list(ast.walk(c.expr))
+            for n in nodes:
+                opaque = None
+                if isinstance(n, ast.Call) and isinstance(
+                        n.func, ast.Name) and n.func.id.startswith('SYM_'):
+                    opaque = 'a call of a local function object'
+                elif isinstance(n, ast.Call) and isinstance(
+                        n.func, ast.Attribute) and U(n.func.value) in (
+                            'self', 'cls') :
+                    opaque = 'the result of the helper %s' % U(n.func)
+                elif isinstance(n, ast.Attribute) and U(n.value) == 'self' \
+                        and n.attr not in ('kind', 'match') and not any(
+                            isinstance(m, ast.Call) and m.func is n
+                            for m in ast.walk(xe)):
+                    writers = sorted({
+                        g.name for g in prog.functions.values()
+                        if g.cls is not None and g.cls.qual == cq
+                        and g.name != '__init__' and any(
+                            isinstance(w, ast.Attribute) and isinstance(
+                                w.ctx, ast.Store) and U(w.value) == 'self'
+                            and w.attr == n.attr for w in ast.walk(g.node))})
+                    if writers:
+                        # positive evidence: state a call leaves behind
+                        once('C04.MEMBER', False, where,
+                             'instance state self.%s' % n.attr,
+                             'the decision of role:X reads self.%s, which '
+                             '%s writes while deciding: the check object is '
+                             'shared by every request, so the decision '
+                             'depends on earlier (or concurrent) calls and '
+                             'not only on X, the target and the credentials'
+                             % (n.attr, ', '.join(writers)))
+                        break
+                    opaque = 'the derived attribute self.%s (set by the ' \
+                        'constructor)' % n.attr
+                if opaque:
+                    raise AnalysisError(
+                        'the decision of role:X goes through %s (condition '
+                        '`%s`, line %d), which the path analysis does not '
+                        'read: whether it is the case-insensitive role '
+                        'membership is not decided' % (
+                            opaque, c.text()[:80], p.outcome.line))
             once('C04.MEMBER', False, where, 'condition ' + c.text()[:80],
                  'the decision of role:X depends on a condition that is '
                  'neither the presence of the role list, nor its scan, nor '
